@@ -8,7 +8,7 @@ def run(tier, runner):
     if tier == 'thorough':
         pts += matrix.vec_points('quick', std=20) + matrix.flatset_points('quick', std=20) + matrix.smallset_points('quick', std=20)
         pts += matrix.vec_points('quick', std=11) + matrix.flatset_points('quick', std=14)
-    progs = matrix.programs(runner, pts)
+    progs = matrix.programs(runner, pts) + matrix.real_programs(runner, tier)
     r1 = callgraph.no_static(progs)
     r2 = callgraph.const_pure(progs)
     r1.require(12, 'fields and static members of the amc classes')
